@@ -3,11 +3,14 @@
 #[verifier::external_body]
 pub struct Estimator { _p: core::marker::PhantomData<()> }
 impl Estimator {
+    // the instant since which the estimate counts (its start_time; verified in c09_estimator: reset / new leave a fresh
+    // estimator anchored at `now`)
+    pub uninterp spec fn anchor(&self) -> Instant;
     #[verifier::external_body]
-    pub fn new(now: Instant) -> Estimator { unimplemented!() }
+    pub fn new(now: Instant) -> (r: Estimator) ensures r.anchor() == now { unimplemented!() }
     #[verifier::external_body]
     pub fn record(&mut self, new_steps: u64, now: Instant) { unimplemented!() }
     #[verifier::external_body]
-    pub fn reset(&mut self, now: Instant) { unimplemented!() }
+    pub fn reset(&mut self, now: Instant) ensures final(self).anchor() == now { unimplemented!() }
 }
 
